@@ -3,13 +3,15 @@
 (* C06, model checking + input generation: every byte string up to MaxLen  *)
 (* over a 9 symbol alphabet of the grammar's delimiters, and every token   *)
 (* string up to MaxTok over tokens that make the sourceFile header         *)
-(* reachable, through the code-shaped parser; the stream laws must hold    *)
+(* reachable, and every string of up to MaxFrag line fragments (truncated   *)
+(* lines and the pieces that would complete them on a later line), through *)
+(* the code-shaped parser; the stream laws must hold    *)
 (* for every split at a line feed.  Each string is printed for the harness *)
 (* which records what the real iterator yields (validated by Trace_Stream).*)
 (***************************************************************************)
 EXTENDS Integers, Sequences, SequencesExt, TLC, Json, StreamLaws
 
-CONSTANTS MaxLen, MaxTok, EmitLen, EmitTok, Bounded
+CONSTANTS MaxLen, MaxTok, MaxFrag, EmitLen, EmitTok, Bounded
 
 P == INSTANCE MappingSyntax WITH SourceFileBounded <- Bounded
 
@@ -17,13 +19,22 @@ Alphabet == {10, 13, 32, 35, 45, 62, 58, 97, 40}
 Tokens == {<<10>>, <<13>>, B("a"), B(" -> "), B(":"), B("    "), B("1"), B("("), B(")"),
            B("# {\"id\":\"sourceFile\",\"fileName\":\""), B("\""), B("\"}"), B("#"), B(" ")}
 
+\* line fragments: every field scan of every sub-parser can be cut short by the line end and
+\* completed by a later line (truncated lines followed by well-formed ones)
+Fragments == {<<10>>, <<13, 10>>,
+              B("a -> b"), B(":"), B("a"), B(" -> b:"),
+              B("    int f"), B(" -> g"), B("    void m(x"), B(") -> n"), B("):3:4 -> n"), B("    1:2:void m()"), B(":3"),
+              B("    1:"), B("2:void m() -> n"), B("    void"), B(" m() -> n"),
+              B("# k"), B(": v"), B("# {\"id\":\"sourceFile\",\"fileName\":\"F"), B("\"}")}
+
 VARIABLES s, n, mode
 vars == <<s, n, mode>>
 
-Init == s = <<>> /\ n = 0 /\ mode \in {"bytes", "tokens"}
+Init == s = <<>> /\ n = 0 /\ mode \in {"bytes", "tokens", "fragments"}
 Next ==
   \/ mode = "bytes" /\ n < MaxLen /\ \E b \in Alphabet : s' = Append(s, b) /\ n' = n + 1 /\ UNCHANGED mode
   \/ mode = "tokens" /\ n < MaxTok /\ \E t \in Tokens : s' = s \o t /\ n' = n + 1 /\ UNCHANGED mode
+  \/ mode = "fragments" /\ n < MaxFrag /\ \E t \in Fragments : s' = s \o t /\ n' = n + 1 /\ UNCHANGED mode
 Spec == Init /\ [][Next]_vars
 
 Splits(w) == {k \in 1..Len(w) : w[k] = 10}
@@ -37,7 +48,7 @@ Laws ==
 
 \* strings up to EmitLen / EmitTok are printed for replay into the real iterator
 EmitCase ==
-  (n > 0 /\ n <= (IF mode = "bytes" THEN EmitLen ELSE EmitTok)) =>
+  (n > 0 /\ n <= (IF mode = "bytes" THEN EmitLen ELSE IF mode = "tokens" THEN EmitTok ELSE MaxFrag)) =>
     PrintT("CASE " \o ToJson([src |-> s, splits |-> SetToSortSeq(Splits(s), LAMBDA a, b : a < b)]))
 
 Inv == Laws /\ EmitCase
